@@ -470,7 +470,6 @@ private:
         int signum;
         std::vector<uint8_t> data;
         n.write_bytes_be(signum, data);
-        std::size_t length = data.size();
 
         if (is_neg)
         {
@@ -481,45 +480,7 @@ private:
             write_tag(2);
         }
 
-        if (length <= 0x17)
-        {
-            // fixstr stores a byte array whose length is upto 31 bytes
-            binary::native_to_big(static_cast<uint8_t>(0x40 + length), 
-                                  std::back_inserter(sink_));
-        }
-        else if (length <= 0xff)
-        {
-            binary::native_to_big(static_cast<uint8_t>(0x58), 
-                                  std::back_inserter(sink_));
-            binary::native_to_big(static_cast<uint8_t>(length), 
-                                  std::back_inserter(sink_));
-        }
-        else if (length <= 0xffff)
-        {
-            binary::native_to_big(static_cast<uint8_t>(0x59), 
-                                  std::back_inserter(sink_));
-            binary::native_to_big(static_cast<uint16_t>(length), 
-                                  std::back_inserter(sink_));
-        }
-        else if (length <= 0xffffffff)
-        {
-            binary::native_to_big(static_cast<uint8_t>(0x5a), 
-                                  std::back_inserter(sink_));
-            binary::native_to_big(static_cast<uint32_t>(length), 
-                                  std::back_inserter(sink_));
-        }
-        else if (uint64_t(length) <= (std::numeric_limits<std::uint64_t>::max)())
-        {
-            binary::native_to_big(static_cast<uint8_t>(0x5b), 
-                                  std::back_inserter(sink_));
-            binary::native_to_big(static_cast<uint64_t>(length), 
-                                  std::back_inserter(sink_));
-        }
-
-        for (auto c : data)
-        {
-            sink_.push_back(c);
-        }
+        write_byte_string(byte_string_view(data.data(), data.size()));
     }
 
     void write_decimal_value(const string_view_type& sv, const ser_context& context, std::error_code& ec)
@@ -947,8 +908,7 @@ private:
             auto it = bytestringref_map_.find(bs);
             if (it == bytestringref_map_.end())
             {
-                bytestringref_map_.emplace(std::make_pair(bs, next_stringref_++));
-                write_byte_string(bs);
+                write_byte_string(b);
             }
             else
             {
@@ -976,9 +936,8 @@ private:
             auto it = bytestringref_map_.find(bs);
             if (it == bytestringref_map_.end())
             {
-                bytestringref_map_.emplace(std::make_pair(bs, next_stringref_++));
                 write_tag(raw_tag);
-                write_byte_string(bs);
+                write_byte_string(b);
             }
             else
             {
@@ -998,6 +957,13 @@ private:
 
     void write_byte_string(const byte_string_view& b) 
     {
+        if (pack_strings_ && b.size() >= jsoncons::cbor::detail::min_length_for_stringref(next_stringref_))
+        {
+            // Every definite-length byte string that is long enough takes the next stringref index,
+            // whatever tag precedes it (bignum, typed array, encoding hint): the decoder counts them all.
+            bytestringref_map_.emplace(byte_string_type(b.data(), b.size(), alloc_), next_stringref_);
+            ++next_stringref_;
+        }
         write_type_and_length(0x40, b.size());
 
         sink_.append(b.data(), b.size());
